@@ -578,7 +578,7 @@ func init() {
 			"Go 1.26.8 runtime and testing/synctest (virtual time for deadlines, quiescence for absence)",
 			"when the server stops with a callback outstanding any non-nil error is admissible for that Callback",
 		},
-		Require: map[string]int64{"callbacks": 500, "records_emitted": 500},
+		Require: map[string]int64{"callbacks": 500, "records_emitted": 500, "callbacks_pending_at_restart": 50, "restarts_with_goroutines_still_parked": 10},
 		Cases:   c09cases,
 	})
 }
@@ -586,6 +586,9 @@ func init() {
 func c09cases(e vt.Env, yield func(vt.Case) bool) {
 	alpha := c09alphabet()
 	if !yield(vt.Case{ID: "nopush", Run: func(c *vt.Ctx) { c09nopush(c); c.Distinct("nopush") }}) {
+		return
+	}
+	if !c09restartCases(e, yield) {
 		return
 	}
 	exhLen := e.Pick(3, 4)
